@@ -307,11 +307,26 @@ def class_key_faults(ctx, n):
         wrong = [S('true'), S('1'), S('zzz'), S('1.5'), S('~'), ('q', [S('a')], None),
                  ('m', [(S('v'), S('1'))], rng.choice(own)), ('s', 'red', False, rng.choice(own))]
         fault = rng.choice(['dup-same', 'dup-other', 'both', 'both-wrong', 'dashed', 'dashed-wrong',
-                            'dashed-tagged'] if under else ['dup-same', 'dup-other'])
+                            'dashed-tagged', 'odd-name-missing', 'bad-scalar'] if under
+                           else ['dup-same', 'dup-other', 'odd-name-missing', 'odd-name-missing', 'bad-scalar'])
         i = rng.choice(under if under and not fault.startswith('dup') else skeys)
         k, v = pairs[i]
         dk = S(k[1].replace('_', '-'))
-        if fault == 'dup-same':
+        if fault == 'odd-name-missing':
+            # a required key is missing and the mapping has a key with characters that mean something to
+            # str.format / % / repr (diagnostics are built from the keys)
+            del pairs[i]
+            odd = rng.choice(['a}b', '{colour}', '${size}', '%s', '{0}', '{}', 'x{y', 'back\\slash', '%(k)s',
+                              'tab\there', "quo'te"])
+            pairs.insert(rng.randint(0, len(pairs)), (('s', odd, True, None), S('1')))
+        elif fault == 'bad-scalar':
+            # an explicitly core-tagged scalar that PyYAML's own constructor refuses, each in its own way
+            T2 = '!!'
+            pairs[i] = (k, rng.choice([('s', '', True, T2 + 'int'), ('s', 'maybe', False, T2 + 'bool'),
+                                       ('s', '_', False, T2 + 'int'), ('s', '', True, T2 + 'bool'),
+                                       ('s', 'x', False, T2 + 'float'), ('s', '+', False, T2 + 'int'),
+                                       ('s', 'nope', False, T2 + 'timestamp'), ('s', '0x_', False, T2 + 'int')]))
+        elif fault == 'dup-same':
             pairs.insert(rng.randint(0, len(pairs)), (k, v))
         elif fault == 'dup-other':
             pairs.insert(rng.randint(0, len(pairs)), (k, rng.choice(wrong)))
